@@ -5,7 +5,8 @@
 
    What is modelled (file : function  ->  definition here)
      ncmpio_getput.m4 : put_varm, the block "for record variable, update number of records"
-                        (new_numrecs, MPI_Allreduce MAX, `if (ncp->numrecs < max_numrecs)
+                        (new_numrecs computed when `status == NC_NOERR || status == NC_ERANGE`: an
+                        NC_ERANGE put has written its data, PRecE; MPI_Allreduce MAX, `if (ncp->numrecs < max_numrecs)
                         write_numrecs + assign`; NC_REQ_INDEP else-branch)   -> coll_put_rec, indep_put_rec
      ncmpio_getput.m4 : GETPUT_API, NC_REQ_ZERO -> ncmpio_getput_zero_req (skips the Allreduce)
                                                                               -> PInvalid / hung
@@ -136,15 +137,34 @@ Definition coll_update (mx : Z) (st : state) : state :=
 
 Inductive part :=
 | PNone                (* zero-length request (count 0): takes part in every collective *)
-| PRec (hi : Z)        (* writes records up to index hi: start[0] + (count[0]-1)*stride[0] = hi *)
+| PRec (hi : Z)        (* writes records up to index hi: start[0] + (count[0]-1)*stride[0] = hi; status NC_NOERR *)
+| PRecE (hi : Z)       (* the same, but a value was not representable in the external type: the data is
+                          written (the element gets the fill value) and the call returns NC_ERANGE *)
 | PInvalid.            (* argument error detected by the dispatcher: NC_REQ_ZERO path *)
 
 Definition is_invalid (p : part) := match p with PInvalid => true | _ => false end.
+Definition erange_free_part (p : part) := match p with PRecE _ => false | _ => true end.
 
-Definition part_new (r : rk) (p : part) : Z :=
-  match p with PRec hi => hi + 1 | _ => numrecs r end.
+(* ghost: the write is complete in both cases (NC_ERANGE is not a fatal error, put_varm proceeds) *)
 Definition part_done (r : rk) (p : part) : rk :=
-  match p with PRec hi => set_own r (Z.max (g_own r) (hi + 1)) | _ => r end.
+  match p with
+  | PRec hi | PRecE hi => set_own r (Z.max (g_own r) (hi + 1))
+  | _ => r
+  end.
+
+Section Put.
+(* put_varm: `if (nelems > 0 && (status == NC_NOERR || status == NC_ERANGE))` computes new_numrecs from
+   the request; E = true mirrors that condition, E = false is the condition without the NC_ERANGE
+   disjunct (checks/C05.py reads the condition from the sources as built) *)
+Variable E : bool.
+
+(* new_numrecs of one rank *)
+Definition part_new (r : rk) (p : part) : Z :=
+  match p with
+  | PRec hi => hi + 1
+  | PRecE hi => if E then hi + 1 else numrecs r
+  | _ => numrecs r
+  end.
 
 Definition coll_put_rec (ps : list part) (st : state) : state :=
   if indef st || indep st then st                       (* NC_EINDEFINE / NC_EINDEP on every rank *)
@@ -158,15 +178,16 @@ Definition coll_put_rec (ps : list part) (st : state) : state :=
       let mx := zmaxl (map (fun x => part_new (fst x) (snd x)) rp) in
       coll_update mx (set_ranks st (map (fun x => part_done (fst x) (snd x)) rp)).
 
+(* NC_REQ_INDEP branch: if (ncp->numrecs < new_numrecs) { ncp->numrecs = new_numrecs; set_NC_ndirty } *)
+Definition indep_put_f (p : part) (r : rk) : rk :=
+  let r1 := part_done r p in
+  let new := part_new r p in
+  if numrecs r1 <? new then set_ndirty (set_numrecs r1 new) true else r1.
+
 Definition indep_put_rec (i : nat) (p : part) (st : state) : state :=
   if indef st || negb (indep st) then st                 (* NC_EINDEFINE / NC_ENOTINDEP *)
-  else set_ranks st (upd_nth i (fun r =>
-         match p with
-         | PRec hi =>
-             let r1 := set_own r (Z.max (g_own r) (hi + 1)) in
-             if numrecs r1 <? hi + 1 then set_ndirty (set_numrecs r1 (hi + 1)) true else r1
-         | _ => r
-         end) (ranks st)).
+  else set_ranks st (upd_nth i (indep_put_f p) (ranks st)).
+End Put.
 
 Definition fill_rec (recnos : list Z) (st : state) : state :=
   if indef st || indep st then st                       (* NC_EINDEFINE / NC_EINDEP returned by the dispatcher *)
@@ -263,6 +284,7 @@ Definition head_ok_q (q : list preq) (sel : wsel) : bool :=
 
 Section Step.
 Variable L : Z -> list preq -> list bool -> Z.     (* commit_loop or commit_fixed *)
+Variable E : bool.                                 (* does put_varm count an NC_ERANGE put for new_numrecs *)
 
 (* ncmpi_wait_all *)
 Definition wait_all (sels : list wsel) (st : state) : state :=
@@ -340,9 +362,9 @@ Inductive op :=
 Definition step (st : state) (o : op) : state :=
   if hung st then st else
   match o with
-  | CollPutRec ps => coll_put_rec ps st
+  | CollPutRec ps => coll_put_rec E ps st
   | CollPutFix => st
-  | IndepPutRec i p => indep_put_rec i p st
+  | IndepPutRec i p => indep_put_rec E i p st
   | IndepPutFix _ => st
   | FillRec rs => fill_rec rs st
   | Post i t b vb ro mr => post i t b vb ro mr st
@@ -398,12 +420,22 @@ End Step.
    num_w_lead_reqs queue entries), `fixed` = over all numLeadPutReqs entries.  checks/C05.py reads the
    loop bound from the sources as built and ties the matching variant to the library; all theorems
    are stated for an explicit variant, so nothing here changes when the library is repaired. *)
-Definition step_head := step commit_loop.
-Definition step_fixed := step commit_fixed.
-Definition run_head := run commit_loop.
-Definition run_fixed := run commit_fixed.
-Definition trace_head (n : nat) (n0 : Z) (ops : list op) := trace commit_loop (init n n0) ops.
-Definition trace_fixed (n : nat) (n0 : Z) (ops : list op) := trace commit_fixed (init n n0) ops.
+Definition step_head := step commit_loop true.
+Definition step_fixed := step commit_fixed true.
+Definition run_head := run commit_loop true.
+Definition run_fixed := run commit_fixed true.
+(* corrected loop, but put_varm's condition without the NC_ERANGE disjunct *)
+Definition run_noerange := run commit_fixed false.
+Definition trace_head (n : nat) (n0 : Z) (ops : list op) := trace commit_loop true (init n n0) ops.
+Definition trace_fixed (n : nat) (n0 : Z) (ops : list op) := trace commit_fixed true (init n n0) ops.
+
+(* no blocking put of the step returns NC_ERANGE (side condition of the _partial theorems of run_noerange) *)
+Definition erange_free (st : state) (o : op) : bool :=
+  match o with
+  | CollPutRec ps => forallb erange_free_part ps
+  | IndepPutRec _ p => erange_free_part p
+  | _ => true
+  end.
 
 (* 1 + highest record index of any write completed so far (0 if none) *)
 Definition written (st : state) : Z := fold_right Z.max 0 (map g_own (ranks st)).
